@@ -229,3 +229,6 @@ def run(chk, repo):
     from rules.shared import optname
     chk.clauses.append('C14.e (shared R-THREAD) an option value bound to a name that is itself a CLI option carries that very option')
     optname(chk, repo, 'C14.e', ['cli.parse_vep', 'cli.parse_reditools'], floor=0)
+    from rules.shared import kwname
+    chk.clauses.append('C14.kw (shared R-THREAD) parameters handed on as keyword arguments keep their name: no `a=b` between two parameters of one function')
+    kwname(chk, repo, 'C14.kw', ['parser.VEPParser', 'parser.REDItoolsParser', 'cli.parse_vep', 'cli.parse_reditools'], floor=0)
